@@ -49,7 +49,7 @@ def build_strategies():
         st.integers(10, 5000).map(lambda n: b"n" * n),
         st.integers(1, 300).map(lambda n: b"\xff" * n),
     )
-    value = st.one_of(st.sampled_from([b"GET", b"/", b"200", b"https", b"a", b"5", b"-1", b"\xff\xfe", b""]), st.binary(max_size=20), st.integers(100, 3000).map(lambda n: b"\x80" * n))
+    value = st.one_of(st.sampled_from([b"GET", b"/", b"200", b"https", b"a", b"5", b"-1", b"\xff\xfe", b""]), st.binary(max_size=20), st.integers(100, 3000).map(lambda n: b"\x80" * n), st.sampled_from([19, 20, 640, 4300, 4301, 10000]).map(lambda n: b"9" * n))
     fields = st.lists(st.tuples(name, value), min_size=0, max_size=5)
     valid_req = st.just([(b":method", b"GET"), (b":scheme", b"https"), (b":authority", b"a"), (b":path", b"/")])
     valid_resp = st.just([(b":status", b"200")])
@@ -71,8 +71,8 @@ def build_strategies():
     ftype_req = st.sampled_from([1] * 6 + [0] * 5 + [5] * 4 + [0x41, 4, 0xD, 3, 7, 0xE, 2, 0x21, 0x40, 0x3F])
     ftype_ctrl = st.sampled_from([4] * 5 + [0xD] * 5 + [3, 3, 7, 7, 0, 1, 5, 0xE, 2, 0x21, 0x41, 0x3F])
     ftype_any = st.integers(0, 80)
-    good_value = st.one_of(st.sampled_from([b"v", b"\xff", b"\xff\xfe", b"\xc3\xa9", b"a b", b"\x80" * 40]), st.binary(min_size=1, max_size=8).filter(lambda v: v[0] not in (9, 32) and v[-1] not in (9, 32) and not any(c in (0, 10, 13) for c in v)))
-    good_name = st.sampled_from([b"x-a", b"accept", b"cookie", b"content-type", b"x-" + b"n" * 50])
+    good_value = st.one_of(st.sampled_from([b"v", b"\xff", b"\xff\xfe", b"\xc3\xa9", b"a b", b"\x80" * 40, b"0", b"7" * 20, b"1" * 4300, b"1" * 4301, b"0" * 9000]), st.binary(min_size=1, max_size=8).filter(lambda v: v[0] not in (9, 32) and v[-1] not in (9, 32) and not any(c in (0, 10, 13) for c in v)))
+    good_name = st.sampled_from([b"x-a", b"accept", b"cookie", b"content-type", b"content-length", b"x-" + b"n" * 50])
     mostly_valid = st.tuples(st.sampled_from([[(b":method", b"GET"), (b":scheme", b"https"), (b":authority", b"a"), (b":path", b"/")], [(b":status", b"200")], []]), st.lists(st.tuples(good_name, good_value), max_size=3)).map(lambda t: B.qpack_literal(t[0] + t[1]))
     field_section = st.one_of(field_section, mostly_valid, mostly_valid)
 
